@@ -24,6 +24,58 @@ def _word(v):
     return u == ('field', ('local', 1), '0')
 
 
+_BITS = {'isize': (64, True), 'usize': (64, False), 'i64': (64, True), 'u64': (64, False), 'i32': (32, True), 'u32': (32, False), 'i16': (16, True),
+         'u16': (16, False), 'i8': (8, True), 'u8': (8, False), 'bool': (1, False), 'char': (32, False)}
+
+
+def _wrap(n, ty):
+    bits, signed = _BITS.get(ty, (64, False) if isinstance(ty, str) and ty.startswith('*') else (None, None))
+    if bits is None:
+        raise ValueError('type %s' % ty)
+    n &= (1 << bits) - 1
+    if signed and n >> (bits - 1):
+        n -= 1 << bits
+    return n
+
+
+def eval_bits(v, env):
+    """value of a symbolic integer expression with the machine semantics of Rust's integer types (wrapping conversions, arithmetic
+    shift on signed types): the expression trees of the encoders / decoders, folded on concrete field values"""
+    if not isinstance(v, tuple) or not v:
+        raise ValueError('not an expression')
+    k = v[0]
+    if k == 'int':
+        return v[1]
+    if k == 'local' or k == 'field':
+        if v in env:
+            return env[v]
+        raise ValueError('free %s' % (v,))
+    if k == 'cast':
+        x = eval_bits(v[1], env)
+        return _wrap(x, v[2])
+    if k == 'unop' and v[1] == 'Not':
+        x = eval_bits(v[2], env)
+        return _wrap(~x, v[3]) if len(v) > 3 else ~x
+    if k == 'unop' and v[1] == 'Neg':
+        return _wrap(-eval_bits(v[2], env), v[3]) if len(v) > 3 else -eval_bits(v[2], env)
+    if k == 'binop':
+        a, b = eval_bits(v[2], env), eval_bits(v[3], env)
+        ty = v[4] if len(v) > 4 else 'usize'
+        op = v[1].replace('WithOverflow', '').replace('Unchecked', '')
+        if op in ('Eq', 'Ne', 'Lt', 'Le', 'Gt', 'Ge'):
+            return int({'Eq': a == b, 'Ne': a != b, 'Lt': a < b, 'Le': a <= b, 'Gt': a > b, 'Ge': a >= b}[op])
+        r = {'Add': lambda: a + b, 'Sub': lambda: a - b, 'Mul': lambda: a * b, 'BitAnd': lambda: a & b, 'BitOr': lambda: a | b, 'BitXor': lambda: a ^ b,
+             'Shl': lambda: a << (b & 63), 'Shr': lambda: a >> (b & 63)}.get(op)
+        if r is None:
+            raise ValueError('operator %s' % op)
+        return _wrap(r(), ty)
+    if k == 'field' and v[2] == '0' and isinstance(v[1], tuple) and v[1] and v[1][0] == 'binop':
+        return eval_bits(v[1], env)          # .0 of a checked operation
+    if k == 'call' and v[1].endswith('::from') and len(v[2]) == 1:
+        return eval_bits(v[2][0], env)       # a lossless widening conversion
+    raise ValueError('form %s' % k)
+
+
 def heap_types(ctx):
     """the types whose values live in a heap box: those whose tag is at or above the threshold is_heap_allocated() tests"""
     F = ctx.facts()
@@ -227,7 +279,23 @@ def run(ctx, rep):
             m = (1 << width) - 1
             okb = ((encs['true'] & m) >> SH) != 0 and ((encs['false'] & m) >> SH) == 0 \
                 and (encs['true'] & TM) == 0 and (encs['false'] & TM) == 0
-    rep.ob(okb, 'R15.3', 'object::Object::bool', 'bool codec', 'encodings %s, decoder %s' % (encs, show(asb)), fn_bool.loc())
+    how_b = 'shape'
+    if not okb:
+        # the shapes differ from the ones known: fold encoder and decoder on both booleans (tag bits free, value read back)
+        try:
+            benc = None
+            for p in AbsInt(F, fn_bool, max_paths=8).run():
+                for (b, name, argv, dk, t) in p.calls:
+                    if name == 'object::Object::with_type':
+                        benc = argv[0]
+            okb = benc is not None
+            for bv_ in (0, 1):
+                w = eval_bits(benc, {('local', 1): bv_}) & ((1 << 64) - 1)
+                okb = okb and (w & TM) == 0 and eval_bits(asb, {('field', ('local', 1), '0'): w | [d for n_, d in tyvars if n_ == 'Bool'][0]}) == bv_
+            how_b = 'folded on false / true'
+        except (ValueError, IndexError, TypeError):
+            okb = False
+    rep.ob(okb, 'R15.3', 'object::Object::bool', 'bool codec', 'encodings %s, decoder %s (%s)' % (encs, show(asb), how_b), fn_bool.loc())
 
     # function
     fn_f = F.fn('object::Object::function')
@@ -269,6 +337,23 @@ def run(ctx, rep):
         why = str(e)
     except Exception as e:  # unexpected shape
         why = 'unrecognised shape (%s)' % e
+    if not okf and fenc is not None:
+        # unknown shapes: fold encoder and decoder on the boundary values of both fields (every combination): tag bits free, both
+        # fields read back, the sign bit of the word untouched
+        try:
+            ftag = [d for n_, d in tyvars if n_ == 'Function'][0]
+            vec_ip = [0, 1, 0xFFFF, 0x10000, 0x7FFFFFFF, 0x80000000, 0xFFFFFFFF]
+            vec_nl = [0, 1, 0xFF, 0x100, 0x7FFF, 0x8000, 0xFFFF]
+            good = asf[0] == 'agg' and len(asf[3]) == 2
+            for ip_ in vec_ip:
+                for nl_ in vec_nl:
+                    w = eval_bits(fenc[0], {('local', 1): ip_, ('local', 2): nl_}) & ((1 << 64) - 1)
+                    wd = {('field', ('local', 1), '0'): w | ftag}
+                    good = good and (w & TM) == 0 and eval_bits(asf[3][0], wd) == ip_ and eval_bits(asf[3][1], wd) == nl_
+            okf = bool(good)
+            why = 'folded on %d boundary combinations of (entry, locals)%s' % (len(vec_ip) * len(vec_nl), '' if okf else ': a combination is not read back; ' + why)
+        except (ValueError, IndexError, TypeError) as e:
+            why = why + ' (not foldable: %s)' % e
     rep.ob(okf, 'R15.3', 'object::Object::function', 'function descriptor codec',
            'encoder %s / decoder %s %s' % (show(fenc[0]) if fenc else None, show(asf), why), fn_f.loc())
 
